@@ -98,6 +98,16 @@ func genC17(seed uint64, tier string) *world.Scenario {
 		}
 		sc.Sensors = append(sc.Sensors, world.SensorSpec{ID: fmt.Sprintf("s%d", i), Kind: "hwmon", Prog: constTemp(30000 + 1000*i + 7000*chip + 100*n), Chip: chip, TempN: n})
 	}
+	// some of the unconfigured temperature inputs exist but cannot be read (empty attribute)
+	if br := kernel.NewRand(seed, "c17.badtemps"); br.Bool(0.35) {
+		for ci := range sc.Chips {
+			for _, n := range sc.Chips[ci].ExtraTemps {
+				if br.Bool(0.5) {
+					sc.Chips[ci].BadTemps = append(sc.Chips[ci].BadTemps, n)
+				}
+			}
+		}
+	}
 	nf := r.Range(1, 3)
 	for i := 0; i < nf; i++ {
 		chip := r.Intn(nchips)
